@@ -10,20 +10,40 @@ from . import core
 from .core import ToolError
 
 
-def run_impl(wd, inputs, configs, profile="release", extra_args=None, name="parse"):
+class ProcessDeath(Exception):
+    def __init__(self, cfg, rc, record, output):
+        Exception.__init__(self, "run_parse died")
+        self.cfg, self.rc, self.record, self.output = cfg, rc, record, output
+
+
+def run_impl(wd, inputs, configs, profile="release", extra_args=None, name="parse", sanitizer=None, env=None, markers=False):
     """run run_parse in every configuration; returns {cfg: [records]}"""
     inp = os.path.join(wd, name + "-in.ndjson")
     core.write_ndjson(inp, [{k: v for k, v in r.items() if k not in ("tag", "expect", "render")} for r in inputs])
     outs = {}
     for cfg in configs:
-        bindir = core.build_harness(cfg, profile=profile, bins=["run_parse"])
-        outp = os.path.join(wd, "%s-out-%s-%s.ndjson" % (name, cfg.replace("+", "_"), profile))
-        p, _ = core.run([os.path.join(bindir, "run_parse"), "--in", inp, "--out", outp] + (extra_args or []),
-                        timeout=1800, check=False)
+        bindir = core.build_harness(cfg, profile=profile, bins=["run_parse"], sanitizer=sanitizer)
+        outp = os.path.join(wd, "%s-out-%s-%s%s.ndjson" % (name, cfg.replace("+", "_"), profile, "-" + sanitizer if sanitizer else ""))
+        p, _ = core.run([os.path.join(bindir, "run_parse"), "--in", inp, "--out", outp] + (extra_args or []) +
+                        (["--markers"] if markers else []), timeout=1800, check=False, env=env)
         if p.returncode != 0:
-            # a process death (abort / signal) is data: attribute it
+            # a process death (abort / signal / sanitizer report) is data: attribute it to the record whose
+            # begin marker has no result
+            if markers and os.path.exists(outp):
+                begun, done = [], set()
+                for line in open(outp, errors="replace"):
+                    try:
+                        o = json.loads(line)
+                    except ValueError:
+                        continue
+                    if "begin" in o:
+                        begun.append(o["begin"])
+                    elif "id" in o:
+                        done.add(o["id"])
+                culprit = next((b for b in reversed(begun) if b not in done), None)
+                raise ProcessDeath(cfg, p.returncode, culprit, (p.stdout or "")[-3000:])
             raise ToolError("run_parse died in cfg %s (rc %d): %s" % (cfg, p.returncode, (p.stdout or "")[-2000:]))
-        outs[cfg] = core.read_ndjson(outp)
+        outs[cfg] = [o for o in core.read_ndjson(outp) if "begin" not in o]
         if len(outs[cfg]) != len(inputs):
             raise ToolError("run_parse returned %d records for %d inputs" % (len(outs[cfg]), len(inputs)))
     return outs
@@ -54,7 +74,7 @@ def adjudicate(wd, recs, flags, name, timeout=3000):
     path = os.path.join(wd, name + "-records.ndjson")
     core.write_ndjson(path, recs)
     env = {"VERIF_RECORDS": path}
-    for f in ("VALUE", "AGREE", "NOPANIC", "ALLOCS", "EXPECT", "MODEL"):
+    for f in ("VALUE", "AGREE", "NOPANIC", "ALLOCS", "EXPECT", "MODEL", "GARBAGE"):
         env["VERIF_CHECK_" + f] = "1" if f in flags else "0"
     res = core.tlc(os.path.join(core.SPEC, "cf", "CF_Parse.tla"), os.path.join(core.SPEC, "cf", "CF_Parse.cfg"),
                    name, env=env, coverage=False, timeout=timeout)
